@@ -1,5 +1,6 @@
 import BppModel.Proto
 import BppModel.Hmm
+import BppModel.HmmFull
 /-
 Driver for C13 (HMM likelihoods).  Registers: the staged tables (`states`/`trans`/`eq`/`emis`)
 and named likelihood objects built from them.  The model answer of every query comes from the
@@ -75,12 +76,11 @@ def Obj.bps (o : Obj) : List Nat :=
 def Obj.logLik (o : Obj) : Float :=
   match o.core with | .resc r => r.fw.logLik | .low l => l.logLik | .log g => g.fw.ll
 
-/-- a built-in transition model: the auto-correlation one is modelled (`Hmm.AutoTM`); the full one
-(rows = C19 simplices, equilibrium = row 0 of P^256 by C04's `pow`) is not — its answers are echoed
-and only judged (row-stochastic, stationary, independent of the order of queries) -/
+/-- a built-in transition model: `Hmm.AutoTM` / `Hmm.FullTM` (rows = C19's simplices, equilibrium
+vector = row 0 of P^256 by C04's `pow`) -/
 inductive TM where
   | auto (m : AutoTM Float)
-  | full (n : Nat) (lastP : Option (Array Float)) (seenPij seenEq : Option (List String))
+  | full (m : FullTM Float)
 
 structure St where
   stage : DTables := {}
@@ -406,15 +406,76 @@ def rowsOfFlat (n : Nat) (xs : List Float) : List (List Float) :=
 def stochasticRows (n : Nat) (xs : List Float) : Bool :=
   xs.length == n * n && (rowsOfFlat n xs).all (fun r => r.all (fun x => x ≥ 0.0) && Float.abs (r.foldl (· + ·) 0.0 - 1.0) ≤ 1e-12)
 
-/-- a probability vector with `π·P = π` (to 1e-9) -/
-def stationaryOf (n : Nat) (P : List Float) (pi : List Float) : Bool :=
+/-- a probability vector with `|(π·P)_j − π_j| ≤ tol` for every `j` -/
+def stationaryOf (n : Nat) (P : List Float) (pi : List Float) (tol : Float := 1e-9) : Bool :=
   pi.length == n && pi.all (fun x => x ≥ 0.0) && Float.abs (pi.foldl (· + ·) 0.0 - 1.0) ≤ 1e-9 &&
   (List.range n).all (fun j =>
     let v := (List.range n).foldl (fun a k => a + (pi.getD k 0.0) * (P.getD (k * n + j) 0.0)) 0.0
-    Float.abs (v - pi.getD j 0.0) ≤ 1e-9)
+    Float.abs (v - pi.getD j 0.0) ≤ tol)
+
+/-- the remainder of `full_stationary_remainder`: row 0 of `P^256` is stationary up to
+`2·(1 − n·δ)^256`, `δ` the smallest entry of `P` (plus 1e-9 for the rounding of 8 squarings) -/
+def fullTol (n : Nat) (P : List Float) : Float :=
+  let d := P.foldl (fun a x => if x < a then x else a) 1.0
+  let c := 1.0 - Float.ofNat n * d
+  let c := if c < 0.0 then 0.0 else c
+  2.0 * Float.pow c 256.0 + 1e-9
 
 def parseLambda (name : String) : Option Nat :=
   if name.startsWith "lambda" then ((name.drop 6).toString.toNat?).bind (fun k => if k ≥ 1 && (name.drop 6).toString == toString k then some (k - 1) else none) else none
+
+/-- "<i+1>.theta<k+1>" -/
+def parseTheta (name : String) : Option (Nat × Nat) :=
+  match name.splitOn ".theta" with
+  | [a, b] => do
+    let i ← a.toNat?; let k ← b.toNat?
+    if i ≥ 1 && k ≥ 1 && name == s!"{i}.theta{k}" then some (i - 1, k - 1) else none
+  | _ => none
+
+/-- the three queries of a transition matrix answered from the parameters alone (no cache) -/
+structure TMSpec where
+  n : Nat
+  pij : List (List Float)
+  entry : Nat → Nat → Option Float
+  eq : Option (List Float)
+
+def TM.n : TM → Nat
+  | .auto m => m.n
+  | .full m => m.n
+
+def TM.spec : TM → TMSpec
+  | .auto m => { n := m.n, pij := autoMatrix m.n m.lam, entry := fun i j => (m.lam[i]?).map (fun li => autoEntry m.n li i j), eq := some m.eq }
+  | .full m => { n := m.n, pij := fullMatrix m.rows, entry := fullEntry m.rows, eq := fullEqOf m.n (fullMatrix m.rows) }
+
+/-- the cached object's answers -/
+def TM.getPij : TM → TM × List (List Float)
+  | .auto m => let r := m.getPij; (.auto r.1, r.2)
+  | .full m => let r := m.getPij; (.full r.1, r.2)
+def TM.getEq : TM → TM × Option (List Float)
+  | .auto m => (.auto m, some m.eq)
+  | .full m => let r := m.getEq; (.full r.1, r.2)
+
+def showOpt (x : Option (List Float)) : String := match x with | some l => hxs l | none => "ub"
+
+/-- verdict on a matrix returned by `getPij()` -/
+def pijVerdict (tm : TM) (xs : List Float) : String :=
+  let n := tm.n
+  match tm with
+  | .auto _ =>
+    -- a single state: the matrix is [λ], not [1] (recorded finding C13-autocorr-one-state)
+    if n < 2 then (if stochasticRows n xs then "ok" else "FAIL:autocorr_one_state")
+    else if stochasticRows n xs then "ok" else "FAIL:autocorr_row_stochastic"
+  | .full _ => if stochasticRows n xs then "ok" else "FAIL:full_matrix_row_stochastic"
+
+/-- verdict on an equilibrium vector, for the matrix `P` -/
+def eqVerdict (tm : TM) (P : List Float) (xs : List Float) : String :=
+  let n := tm.n
+  match tm with
+  | .auto _ => if n < 2 then "-" else if stationaryOf n P xs then "ok" else "FAIL:autocorr_stationary"
+  | .full _ => if !stochasticRows n P then "-" else if stationaryOf n P xs (fullTol n P) then "ok" else "FAIL:full_stationary"
+
+def histTM (impl : List String) (spec : String) : String :=
+  if " ".intercalate impl == spec then "ok" else "FAIL:transition_history_independent"
 
 def tmStep (s : St) (op : List String) (impl : Option (List String)) : St × String × String :=
   match op with
@@ -423,85 +484,103 @@ def tmStep (s : St) (op : List String) (impl : Option (List String)) : St × Str
     | none => (s, "bad-op", "-")
     | some n =>
       if kind == "auto" then (s.putTM k (.auto (AutoTM.build n)), "ok", "-")
-      else if kind == "full" then (s.putTM k (.full n none none none), "ok", "-")
+      else if kind == "full" then
+        match FullTM.build n with
+        | some m => (s.putTM k (.full m), "ok", "-")
+        | none => (s, "exc:constraint", "-")
       else (s, "bad-op", "-")
+  | ["tmclone", k, k2] =>
+    match s.getTM? k with
+    | some m => (s.putTM k2 m, "ok", "-")
+    | none => (s, "no-object", "-")
+  | ["tmassign", k, k2] =>
+    -- `*k2 = *k` (operator= of the class; both of the same class)
+    match s.getTM? k, s.getTM? k2 with
+    | some (.auto m), some (.auto _) => (s.putTM k2 (.auto m), "ok", "-")
+    | some (.full m), some (.full _) => (s.putTM k2 (.full m), "ok", "-")
+    | some _, some _ => (s, "class-mismatch", "-")
+    | _, _ => (s, "no-object", "-")
   | o :: k :: args =>
     match s.getTM? k with
     | none => (s, "no-object", "-")
-    | some (.auto m) =>
+    | some tm =>
+      let n := tm.n
       match o, args with
       | "tmset", [name, v] =>
-        match Hex.float? v, parseLambda name with
-        | some v, some i =>
-          if i ≥ m.n then (s, "exc:notfound", "-") else
-          let old := m.lam.getD i 0.0
-          -- Parameter::setValue: nothing happens unless |v - old| > 0; then the constraint ]0,1[ is checked
-          if !(Float.abs (v - old) > 0) then (s.putTM k (.auto (m.setLambda i old)), "ok", "-")
-          else if !(v > 0.0 && v < 1.0) then (s, "exc:constraint", "-")
-          else (s.putTM k (.auto (m.setLambda i v)), "ok", "-")
-        | some _, none => (s, "exc:notfound", "-")
+        match Hex.float? v with
+        | none => (s, "bad-op", "-")
+        | some v =>
+          match tm with
+          | .auto m =>
+            match parseLambda name with
+            | none => (s, "exc:notfound", "-")
+            | some i =>
+              if i ≥ m.n then (s, "exc:notfound", "-") else
+              let old := m.lam.getD i 0.0
+              -- Parameter::setValue: nothing happens unless |v - old| > 0; then the constraint ]0,1[ is checked
+              if !(Float.abs (v - old) > 0) then (s.putTM k (.auto (m.setLambda i old)), "ok", "-")
+              else if !(v > 0.0 && v < 1.0) then (s, "exc:constraint", "-")
+              else (s.putTM k (.auto (m.setLambda i v)), "ok", "-")
+          | .full m =>
+            match parseTheta name with
+            | none => (s, "exc:notfound", "-")
+            | some (i, j) =>
+              let r := m.setTheta i j v
+              (s.putTM k (.full r.1), match r.2 with | none => "ok" | some e => e.show, "-")
+      | "tmsetP", r =>
+        match floats? r, tm with
+        | some a, .full m =>
+          let r := m.setRows (rowsOfFlat n a.toList)
+          (s.putTM k (.full r.1), match r.2 with | none => "ok" | some e => e.show, "-")
+        | some _, .auto _ => (s, "bad-op", "-")
         | none, _ => (s, "bad-op", "-")
       | "tmpij", [] =>
-        let (m', p) := m.getPij
+        let (tm', p) := tm.getPij
         let verdict := match impl with
-          | some i => (match implFloats? i with
-            | some xs =>
-              -- a single state: the matrix is [λ], not [1] (recorded finding C13-autocorr-one-state)
-              if m.n < 2 then (if stochasticRows m.n xs then "ok" else "FAIL:autocorr_one_state")
-              else if stochasticRows m.n xs then "ok" else "FAIL:autocorr_row_stochastic"
+          | some i => if isExc i then "-" else (match implFloats? i with
+            | some xs => both (pijVerdict tm xs) (histTM i (hxs tm.spec.pij.flatten))
             | none => "FAIL:parse")
           | none => "-"
-        (s.putTM k (.auto m'), hxs p.flatten, verdict)
+        (s.putTM k tm', hxs p.flatten, verdict)
       | "tmPij", [i, j] =>
         match nat? i, nat? j with
-        | some i, some j => (match m.lam[i]? with | some li => (s, hx (autoEntry m.n li i j), "-") | none => (s, "bad-index", "-"))
+        | some i, some j =>
+          if i ≥ n || j ≥ n then (s, "bad-index", "-") else
+          let out := match tm.spec.entry i j with | some x => hx x | none => "ub"
+          (s, out, match impl with | some im => histTM im out | none => "-")
         | _, _ => (s, "bad-op", "-")
       | "tmeq", [] =>
+        let (tm', e) := tm.getEq
         let verdict := match impl with
-          | some i => (match implFloats? i with
-            | some xs => if m.n < 2 then "-" else
-                if stationaryOf m.n (autoMatrix m.n m.lam).flatten xs then "ok" else "FAIL:autocorr_stationary"
+          | some i => if isExc i then "-" else (match implFloats? i with
+            | some xs => both (eqVerdict tm tm.spec.pij.flatten xs) (histTM i (showOpt tm.spec.eq))
             | none => "FAIL:parse")
           | none => "-"
-        (s, hxs m.eq, verdict)
-      | "tmclone", [k2] => (s.putTM k2 (.auto m), "ok", "-")
+        (s.putTM k tm', showOpt e, verdict)
+      | "tmall", [order] =>
+        -- getPij(), every Pij(i,j) and getEquilibriumFrequencies() in one answer ("pe": matrix first, "ep":
+        -- equilibrium vector first): `P ; Q ; E`
+        let (tm1, p, e) :=
+          if order == "ep" then let (t1, e) := tm.getEq; let (t2, p) := t1.getPij; (t2, p, e)
+          else let (t1, p) := tm.getPij; let (t2, e) := t1.getEq; (t2, p, e)
+        let q := (List.range n).flatMap (fun i => (List.range n).map (fun j => tm.spec.entry i j))
+        let qs := if q.isEmpty then "-" else " ".intercalate (q.map (fun x => match x with | some x => hx x | none => "ub"))
+        let out := hxs p.flatten ++ " ; " ++ qs ++ " ; " ++ showOpt e
+        let verdict := match impl with
+          | none => "-"
+          | some i =>
+            if isExc i then "-" else
+            match (splitTok ";" i).map implFloats? with
+            | [some P, some Q, some E] =>
+              let sp := tm.spec
+              if P.length != n * n || Q.length != n * n then "FAIL:parse"
+              -- getPij() agrees entry-wise with Pij(i,j) (both read the same parameters with the same expression)
+              else if hxs P != hxs Q then "FAIL:transition_pij_agree"
+              else both (both (pijVerdict tm P) (eqVerdict tm P E))
+                (histTM i (hxs sp.pij.flatten ++ " ; " ++ qs ++ " ; " ++ showOpt sp.eq))
+            | _ => "FAIL:parse"
+        (s.putTM k tm1, out, verdict)
       | _, _ => (s, "bad-op", "-")
-    | some (.full n lastP seenPij seenEq) =>
-      -- not modelled: the implementation's answer is echoed and judged
-      let echo := match impl with | some i => " ".intercalate i | none => "unmodelled"
-      match o, args with
-      | "tmsetP", r =>
-        match floats? r with
-        | some a => (s.putTM k (.full n (some a) none none), echo, "-")
-        | none => (s, "bad-op", "-")
-      | "tmpij", [] =>
-        match impl with
-        | none => (s, echo, "-")
-        | some i =>
-          if isExc i then (s, echo, "-") else
-          match implFloats? i with
-          | none => (s, echo, "FAIL:parse")
-          | some xs =>
-            let v := if !stochasticRows n xs then "FAIL:full_matrix_row_stochastic"
-              else if (match seenPij with | some p => p != i | none => false) then "FAIL:transition_order_independent"
-              else if (match lastP with | some a => !((a.toList.zip xs).all (fun (x, y) => Float.abs (x - y) ≤ 1e-12)) | none => false) then "FAIL:full_matrix_set"
-              else "ok"
-            (s.putTM k (.full n lastP (some i) seenEq), echo, v)
-      | "tmeq", [] =>
-        match impl with
-        | none => (s, echo, "-")
-        | some i =>
-          if isExc i then (s, echo, "-") else
-          match implFloats? i with
-          | none => (s, echo, "FAIL:parse")
-          | some xs =>
-            let P : List Float := match lastP with | some a => a.toList | none => List.replicate (n * n) (1.0 / Float.ofNat n)
-            let v := if (match seenEq with | some p => p != i | none => false) then "FAIL:transition_order_independent"
-              else if !stationaryOf n P xs then "FAIL:full_stationary"
-              else "ok"
-            (s.putTM k (.full n lastP seenPij (some i)), echo, v)
-      | "tmclone", [k2] => (s.putTM k2 (.full n lastP seenPij seenEq), "ok", "-")
-      | _, _ => (s, echo, "-")
   | _ => (s, "bad-op", "-")
 
 /-! ## parameters -/
@@ -569,7 +648,7 @@ def step (s : St) (op : List String) (impl : Option (List String)) : St × Strin
       let st := { s.stage with E := s.stage.E ++ a }
       ({ s with stage := st }, toString (st.E.size / (if st.n == 0 then 1 else st.n)), "-")
     | none => (s, "bad-op", "-")
-  | "tm" :: _ | "tmset" :: _ | "tmsetP" :: _ | "tmpij" :: _ | "tmPij" :: _ | "tmeq" :: _ | "tmclone" :: _ | "tmnames" :: _ =>
+  | "tm" :: _ | "tmset" :: _ | "tmsetP" :: _ | "tmpij" :: _ | "tmPij" :: _ | "tmeq" :: _ | "tmclone" :: _ | "tmassign" :: _ | "tmall" :: _ =>
     tmStep s op impl
   | "build" :: k :: algo :: wp :: r =>
     let t := s.stage
